@@ -450,7 +450,8 @@ func ruleDebian(p *Prog, r *Report) {
 			ch := seq + "[i]"
 			presK := "present:" + seq
 			letterK := ""
-			for k, ti := range c.terms {
+			for _, k := range c.termKeys() {
+				ti := c.terms[k]
 				if strings.HasPrefix(k, "IsLetter(") && len(ti.base) == 1 {
 					letterK = k
 				}
@@ -563,7 +564,8 @@ func ruleDebian(p *Prog, r *Report) {
 			})
 		})
 		stripK := ""
-		for k, ti := range c.terms {
+		for _, k := range c.termKeys() {
+			ti := c.terms[k]
 			if strings.HasPrefix(k, "TrimLeft(") && strings.HasSuffix(k, `,"0")`) && len(ti.base) == 1 {
 				stripK = k
 			}
